@@ -1289,7 +1289,7 @@ func TestVerif_C02_Requests(t *testing.T) {
 	shard, _ := kit.Shard()
 	r := kit.NewResult(t, "c02-requests", seed, "generated namespace trees (depth<=3) x recording secrets/auth mounts at nested and sibling-prefix paths x generated ACL policies (exact, trailing-*, + segments, deny, sudo) x tokens in the states {absent, garbage, one character / one byte (head, middle, signature) flipped, truncated signature, revoked, expired, exhausted, last use, CIDR-bound, disabled entity, batch, batch mutated / expired / parent revoked, other namespace, root}; every request (plain, rule-directed and hostile forms: trailing and doubled slashes, ./.. segments, mount-boundary, namespace by header or by path prefix, unknown namespaces, restricted sys APIs in child namespaces, internal operations) is judged by the reference authoriser and compared with handler log, response class, tagged physical writes and a digest of the recording mounts' storage; configuration changes (policy rewrite/delete/recreate, token revocation, entity disable / entity policies, unmount / mount) are bracketed by the same request before and immediately after. A case is non-trivial when (a) a request was refused only because of the token state while its policies allow it, (b) an authorised request reached the handler, or (c) a mutation flipped the verdict of the very next request; distinct by (state, op, mount, backend path)")
 	defer r.Write(t)
-	ntopo := kit.N(24, 40)
+	ntopo := kit.N(24, 100)
 	nreq := kit.N(800, 2500)
 	for i := 0; i < ntopo; i++ {
 		caseID := fmt.Sprintf("topo:%d:%d", shard, i)
